@@ -555,7 +555,14 @@ func (r *Run) parent() int {
 	exit := 0
 	printedKnown := map[string]bool{}
 	unlisted := 0
-	os.MkdirAll(filepath.Join(r.Root, "replay", s.ID), 0o755)
+	// Runs against another tree than /repo (VERIF_REPO: scratch worktrees carrying
+	// a seeded change) are not evidence about /repo: their evidence and replay
+	// files go to .work/alt instead of /verif/evidence and /verif/replay.
+	outRoot := r.Root
+	if vr := os.Getenv("VERIF_REPO"); vr != "" && vr != "/repo" {
+		outRoot = filepath.Join(r.Root, ".work", "alt")
+	}
+	os.MkdirAll(filepath.Join(outRoot, "replay", s.ID), 0o755)
 	perSig := map[string]int{}
 	written := 0
 	for i, v := range merged.Violations {
@@ -578,7 +585,7 @@ func (r *Run) parent() int {
 			exit = 1
 			continue
 		}
-		p := filepath.Join(r.Root, "replay", s.ID, fmt.Sprintf("%d-%s-%d-%d.json", r.Seed, r.Tier, v.Trial, i))
+		p := filepath.Join(outRoot, "replay", s.ID, fmt.Sprintf("%d-%s-%d-%d.json", r.Seed, r.Tier, v.Trial, i))
 		b, _ := json.MarshalIndent(v, "", " ")
 		os.WriteFile(p, b, 0o644)
 		fmt.Printf("VIOLATION property=%s replay=%s\n", s.ID, p)
@@ -649,9 +656,9 @@ func (r *Run) parent() int {
 		"wall_s":      time.Since(start).Seconds(),
 		"violations":  unlisted,
 	}
-	os.MkdirAll(filepath.Join(r.Root, "evidence"), 0o755)
+	os.MkdirAll(filepath.Join(outRoot, "evidence"), 0o755)
 	b, _ := json.MarshalIndent(ev, "", " ")
-	if err := os.WriteFile(filepath.Join(r.Root, "evidence", s.ID+".json"), b, 0o644); err != nil {
+	if err := os.WriteFile(filepath.Join(outRoot, "evidence", s.ID+".json"), b, 0o644); err != nil {
 		fmt.Fprintf(os.Stderr, "cannot write evidence: %v\n", err)
 		return 2
 	}
